@@ -1144,6 +1144,11 @@ where
             let edge_idx = EdgeIndex::new(edge_index);
             match index_twice(&mut self.g.nodes, a.index(), b.index()) {
                 Pair::None => return Err(if a > b { a } else { b }),
+                // an endpoint that is a vacant node (a hole) is not a node of the graph:
+                // linking the edge there would overwrite the free list stored in the slot
+                Pair::One(an) if an.weight.is_none() => return Err(a),
+                Pair::Both(an, _) if an.weight.is_none() => return Err(a),
+                Pair::Both(_, bn) if bn.weight.is_none() => return Err(b),
                 Pair::One(an) => {
                     edge.next = an.next;
                     an.next[0] = edge_idx;
